@@ -137,8 +137,8 @@ def plan(pid, tier):
         # the fresh-process differential runs first: if executions in one process are not independent of each
         # other, in-process exploration (which re-executes histories in one process) is not meaningful
         hop = arena_job("thread-hand-over", "deephop", 20, 3 if q else 5, 0, 40 if q else 600, tier, min_aligns="1,16")
-        return {"level": "model_checking", "jobs": [iso, pair, pairh, hop, loom], "owns_crashes": False, "stop_after_violating_job": True,
-                "rule": "(0) fresh-process differential: every probe history of an arena must give the same trace in a process where another arena first ran any prefix history (incl. allocator refusals) as in a process where nothing ran before (catches coupling through process-wide statics); (1) BFS over interleaved histories of 2 (thorough: also 3) real arenas, each with its own allocator slab; every arena's trace is compared with its own sub-history run alone, every footer store reported by the verif_hooks hook must target the acting arena's own chunks; (2) loom explores all schedules (operation granularity, DPOR, no preemption bound) of 2-3 threads each driving its own arena and of arena hand-over; the shared static is a loom UnsafeCell so unsynchronised conflicting accesses are reported as data races",
+        return {"level": "model_checking", "jobs": [iso, grid_job("containers-of-two-arenas", "crossarena", 20, tier), pair, pairh, hop, loom], "owns_crashes": False, "stop_after_violating_job": True,
+                "rule": "(0) fresh-process differential: every probe history of an arena must give the same trace in a process where another arena first ran any prefix history (incl. allocator refusals) as in a process where nothing ran before (catches coupling through process-wide statics); (1) BFS over interleaved histories of 2 (thorough: also 3) real arenas, each with its own allocator slab; every arena's trace is compared with its own sub-history run alone, every footer store reported by the verif_hooks hook must target the acting arena's own chunks; (2) loom explores all schedules (operation granularity, DPOR, no preemption bound) of 2-3 threads each driving its own arena and of arena hand-over; the shared static is a loom UnsafeCell so unsynchronised conflicting accesses are reported as data races; (3) grid of 960 cases in which vectors of two arenas (or of one) meet in append: 6 destination shapes x 4 donor shapes x 5 element sizes x growth of 0/1/40/1000 elements afterwards; an idle arena's allocated_bytes / chunk_capacity / allocated_bytes_including_metadata must not change",
                 "assumptions": ["bumpalo contains no atomics: schedules are explored at operation granularity; races are decided by happens-before over instrumented accesses (footer stores via the hook, reads of the shared static by chunk-less arenas)", "a store through a site without the hook would be invisible to loom (the sequential pair model still detects a changed static)"],
                 "bounds": {"pair_depth": d, "arenas": 2 if q else 3, "loom_threads": "2-3", "loom_ops_per_thread": "1-3 (thorough: up to 4)"}}
     return None
@@ -168,6 +168,7 @@ def coll_plan(pid, tier):
     if pid == "C13":
         jobs = [coll_job("vec-vs-std", "vec", 13, 4, 4, tier, 45), coll_job("vec-vs-std-long", "vec", 13, 2, 20, tier, 30), coll_job("vec-vs-std-scale", "vec", 13, 2, 260, tier, 40)] if q else [coll_job("vec-vs-std-len6", "vec", 13, 5, 6, tier, 900), coll_job("vec-vs-std-long", "vec", 13, 3, 40, tier, 300), coll_job("vec-vs-std-scale", "vec", 13, 3, 260, tier, 600), coll_job("vec-vs-std-len4-dbg", "vec", 13, 4, 4, tier, 300, build="dbg")]
         jobs.append(grid_job("vec-capacity-at-scale", "vecgrowth", 13, tier, slab_mb=64))
+        jobs.append(grid_job("append-meets-another-vector", "crossarena", 13, tier))
         return {"level": "model_checking", "jobs": jobs, "owns_crashes": True, "rule": RULE_COLL, "assumptions": COLL_ASSUME, "bounds": {"max_len": 4 if q else 6, "depth": 4 if q else 5, "long_job": "vectors of 9 and 17 elements (up to 20; thorough 40) x 1 (thorough 2) further operations", "element_types": ["D", "u8", "Z"]}, "build_profiles": ("release",) if q else ("release", "dbg")}
     if pid == "C15":
         jobs = [coll_job("vec-drop-ledger", "vec", 15, 4, 4, tier, 45), coll_job("vec-drop-ledger-long", "vec", 15, 2, 20, tier, 30), coll_job("vec-drop-ledger-scale", "vec", 15, 2, 260, tier, 40), grid_job("box-chains", "box", 15, tier)] if q else [coll_job("vec-drop-ledger-len6", "vec", 15, 5, 6, tier, 900), coll_job("vec-drop-ledger-long", "vec", 15, 3, 40, tier, 300), coll_job("vec-drop-ledger-scale", "vec", 15, 3, 260, tier, 600), grid_job("box-chains", "box", 15, tier)]
